@@ -237,7 +237,7 @@ def named_long_string(name, rng, n):
 # presentations
 
 
-RENAMES = ["id", "int", "tuple", "long", "mixed"]
+RENAMES = ["id", "int", "smallint", "tuple", "long", "mixed"]
 TERM_RENAMES = ["id", "id", "int", "multi"]
 
 
@@ -264,11 +264,17 @@ def presentation(rng, ab, identity=False):
     perm = list(range(n))
     rng.shuffle(perm)
     scheme = rng.choice(RENAMES)
+    tscheme = rng.choice(TERM_RENAMES)
     sigma = list(range(len(N)))
     rng.shuffle(sigma)
     nmap = {}
+    # smallint: nonterminals are the small integers right after the (integer)
+    # terminals, i.e. exactly the range renumber() hands out
+    base = len(ab["V"]) if tscheme == "int" else rng.choice([0, 1])
     for X, k in zip(N, sigma):
-        if scheme == "id":
+        if scheme == "smallint":
+            nmap[X] = enc(base + k)
+        elif scheme == "id":
             nmap[X] = X
         elif scheme == "int":
             nmap[X] = enc(10 + k)
@@ -278,7 +284,6 @@ def presentation(rng, ab, identity=False):
             nmap[X] = "Q" * (k + 1)
         else:
             nmap[X] = [X, enc(20 + k), enc((k, "x")), f"Z{k}"][k % 4]
-    tscheme = rng.choice(TERM_RENAMES)
     tmap = {}
     for i, a in enumerate(ab["V"]):
         tmap[a] = a if tscheme == "id" else (enc(i) if tscheme == "int" else f"tok_{a}")
